@@ -14,10 +14,10 @@ add("C15", "E1", "property-based testing: fault injection into generated valid i
     "Exploration: proptest search over choice tapes; a valid-mode generated input gets 0/1/2 documented misuses injected at random admissible positions; expected diagnostics come from a table transcribed from the documentation/tests. Shows reporting is complete and position-independent on what was sampled; cannot prove absence.",
     TB + "; the message table (DESIGN.md appendix B) is the oracle", "DESIGN.md 3/C15")
 add("C16", "E1", "property-based testing + structure-aware fuzzing: generated wild inputs, no-unwind oracle",
-    "Exploration: wild-mode L1 inputs, token-soup arguments and valid-mode inputs are expanded under catch_unwind; any panic is a violation unless it matches an open known finding (message class + file + enclosing fn). Sampled, not exhaustive.",
+    "Exploration: wild-mode L1 inputs, token-soup arguments, valid-mode inputs and the instruction-selection lattice (any trait spelling x hint x member instructions of related spellings, child parents / ghosts / variants of any hint) are expanded under catch_unwind; any panic is a violation unless it matches an open known finding (message class + file + enclosing fn). Sampled, not exhaustive.",
     TB, "DESIGN.md 3/C16")
 add("C17", "E1", "property-based testing: generated accepted inputs, strict-parse + signature-shape oracle",
-    "Exploration: every accepted generated input's output is cut into items, each parsed with syn 2 (full) and checked against the documented trait/method/signature shape.",
+    "Exploration: every accepted generated input's output (valid mode, recombined inputs, instruction-selection lattice) is cut into items, each parsed with syn 2 (full) and checked against the documented trait/method/signature shape.",
     TB + "; syn 2 full parser decides syntactic validity", "DESIGN.md 3/C17")
 add("C19", "E1+X", "property-based testing: repeat-and-compare in-process and across fresh processes",
     "Exploration: each generated input (weighted towards multi-diagnostic ones) is expanded three times in-process and by 3-6 fresh processes; results must be identical, diagnostics compared as a sequence.",
@@ -27,7 +27,7 @@ add("C04", "E1", "property-based testing: generated trait-instruction sets, READ
     "Exploration: random exact covers of (kind, fallibility) cells by the 24 instruction names over 8 counterpart type forms and 5 error type forms; the multiset of impl headers (trait, T vs &T, self type, method, type Error) must equal an independently transcribed table, and must not change under permutation of the instructions.",
     TB + "; the header table transcribed from README lines 190-264 is the oracle", "DESIGN.md 3/C04")
 add("C05", "E1", "property-based testing: reference-model oracle (independent select()) + add-one non-interference metamorphic relation",
-    "Exploration: tie-free random sets of member instructions with unique markers on one member, all 12 kinds x 1-3 counterparts; an independent implementation of the precedence chain stated in the property predicts which marker each of the impls contains; adding an instruction in a free cell must leave every impl with unchanged winner token-identical.",
+    "Exploration: tie-free random sets of member instructions with unique markers on one member, all 12 kinds x 1-3 counterparts; an independent implementation of the precedence chain stated in the property predicts which marker each of the impls contains; adding an instruction in a free cell must leave every impl with unchanged winner token-identical; adding a default #[ghost] / #[child] / #[parent(..)] that every concerned counterpart shadows with a dedicated one must change nothing for those counterparts.",
     TB + "; the reference select() encodes the property text (fallible into_existing falls back to try_into before into)", "DESIGN.md 3/C05")
 add("C06", "E1", "property-based testing: projection metamorphic relation between two expansions",
     "Exploration: generated inputs with 2-3 counterparts and dedicated/default instructions of every kind; impls for counterpart A in the full expansion must equal the expansion of the input projected onto A.",
